@@ -2,7 +2,7 @@
 from engine import templates as T
 from engine.graphs import GRAPHS
 
-T.register("C10", __name__, T.h_vke, {}, [GRAPHS[g] for g in sorted(GRAPHS)], lemma="agree", name_prefix="vke", timeout=240,
+T.register("C10", __name__, T.h_vke, {}, [GRAPHS[g] for g in sorted(GRAPHS) if "effopt" not in GRAPHS[g].tags], lemma="agree", name_prefix="vke", timeout=240,
            what="validate(o), keys(o), evaluate(o) succeed or fail together (total bodies, in-domain values); bodies run during "
                 "validate/keys are only those needed to choose a branch",
            bounds="one symbolic dictionary; cold caches")
@@ -39,3 +39,74 @@ T.register("C10", __name__, h_vke_warm, {}, _WARM, lemma="agree-warm", name_pref
            what="after the long-lived graph was evaluated on o_a (warm caches), validate / keys / evaluate on o_b (o_a perturbed in "
                 "one slot, or identical) still succeed or fail together",
            bounds="7 cached graphs; stub S1")
+
+
+# ---------------------------------------------------------------------------------------------------------
+from labrea import Option, dataset
+from labrea.pipeline import pipeline_step
+
+from engine.api import harness
+from engine.hutil import untraced
+
+
+@harness("C10", lemma="effect-options", example=None, timeout=120,
+         bounds="a dataset with a pipeline-step effect that needs its own option E; A and E present or absent",
+         what="validate, keys and evaluate agree also when an EFFECT needs an option (KNOWN FINDING on the unchanged tree: keys() does "
+              "not look at effects - by design for fingerprints - so keys succeeds where validate and evaluate fail for the missing E)")
+def effect_options(a: int, pa: bool, e: int, pe: bool) -> int:
+    with untraced():
+        @pipeline_step
+        def eff(x, tag=Option("E")):
+            return None
+
+        @dataset.nocache(effects=[eff])
+        def d(v: int = Option("A")) -> int:
+            return v
+    o = {}
+    if pa:
+        o["A"] = a
+    if pe:
+        o["E"] = e
+    with quiet():
+        v = outcome(lambda: d.validate(o))
+        k = outcome(lambda: d.keys(o))
+        ev = outcome(lambda: d(o))
+    note("options", o, "validate", v, "keys", k, "evaluate", ev)
+    if not (T._ok(v) == T._ok(k) == T._ok(ev)):
+        return 0
+    return 2 if T._ok(ev) else 1
+
+
+@harness("C10", lemma="warm-then-disabled", cubes={"how": [0, 1, 2]}, stubs=("S1",), example=dict(how=0, a=1, e=2), timeout=300,
+         bounds="a cached dataset with an option-needing effect, evaluated once with complete options (warm), then validate / evaluate "
+                "with the cache disabled (option DISABLED / option DISABLE / context) and the effect's option omitted",
+         what="with caching switched off, validate and evaluate agree (both see that the recomputation needs the omitted option) "
+              "although a stored value exists")
+def warm_then_disabled(how: int, a: int, e: int) -> int:
+    import labrea.cache
+    import contextlib
+
+    with untraced():
+        @pipeline_step
+        def eff(x, tag=Option("E")):
+            return None
+
+        @dataset(effects=[eff])
+        def d(v: int = Option("A")) -> int:
+            return v
+    with quiet():
+        first = outcome(lambda: d({"A": a, "E": e}))
+        o2 = {"A": a}
+        if how == 0:
+            o2["LABREA"] = {"CACHE": {"DISABLED": True}}
+        elif how == 1:
+            o2["LABREA"] = {"CACHE": {"DISABLE": True}}
+        with (labrea.cache.disabled() if how == 2 else contextlib.nullcontext()):
+            v = outcome(lambda: d.validate(o2))
+            ev = outcome(lambda: d(o2))
+    note("warm", first, "then with caching off and E omitted: validate", v, "evaluate", ev)
+    if first[0] != "ok":
+        return 0
+    if T._ok(v) != T._ok(ev):
+        return 0
+    return 2
